@@ -152,42 +152,48 @@ def images(points, realvecs, center, radius, chunk=4096):
     return must, may
 
 
+def _req(cond, info=None):
+    """Explicit check (not ``assert``: must also work under ``python -O``)."""
+    if not cond:
+        raise AssertionError(f"periodic_ref self-test failed: {info!r}")
+
+
 def self_test():
     """Hand-computed examples; raises AssertionError when the reference itself is wrong."""
     # 1-D: points 0.1, 0.5, period 1, sphere [-0.55, 0.55]: images 0.1 (j=0), 0.5 (j=0), -0.5 (j=-1)
     must, may = images(np.array([0.1, 0.5]), np.array([1.0]), 0.0, 0.55)
     want = {(0, (0,)), (1, (0,)), (1, (-1,))}
-    assert set(must) == want and set(may) == want, (must, may)
+    _req(set(must) == want and set(may) == want, (must, may))
     # same with a negative lattice vector: translations change sign
     must, may = images(np.array([0.1, 0.5]), np.array([-1.0]), 0.0, 0.55)
-    assert set(must) == {(0, (0,)), (1, (0,)), (1, (1,))}, must
+    _req(set(must) == {(0, (0,)), (1, (0,)), (1, (1,))}, must)
     # 1-D far centre: c = 7.3, r = 0.25 -> images in [7.05, 7.55]: 7.1 (i=0, j=7), 7.5 (i=1, j=7)
     must, _ = images(np.array([0.1, 0.5]), np.array([1.0]), 7.3, 0.25)
-    assert set(must) == {(0, (7,)), (1, (7,))}, must
+    _req(set(must) == {(0, (7,)), (1, (7,))}, must)
     # 2-D skewed cell a1=(1,0), a2=(0.5,1), one point at origin, centre (0.2,0.1), r=1.0:
     # images j1*a1+j2*a2: (0,0) d=.2236; (1,0) d=.806; (-1,0) d=1.204 no; (0,1)=(.5,1) d=.9487; (-1,1)=(-.5,1) d=1.14 no;
     # (0,-1)=(-.5,-1) d=1.30 no; (1,-1)=(.5,-1) d=1.14 no; (1,1)=(1.5,1) d=1.58 no
     A = np.array([[1.0, 0.0], [0.5, 1.0]])
     must, may = images(np.zeros((1, 2)), A, np.array([0.2, 0.1]), 1.0)
-    assert set(must) == {(0, (0, 0)), (0, (1, 0)), (0, (0, 1))} and set(may) == set(must), must
+    _req(set(must) == {(0, (0, 0)), (0, (1, 0)), (0, (0, 1))} and set(may) == set(must), must)
     # partial lattice: 2-D points, one lattice vector (0,2): point (0.3,0.5), centre (0,4.4), r=0.35 -> image j=2: (0.3,4.5) d=.316
     must, _ = images(np.array([[0.3, 0.5]]), np.array([[0.0, 2.0]]), np.array([0.0, 4.4]), 0.35)
-    assert set(must) == {(0, (2,))}, must
+    _req(set(must) == {(0, (2,))}, must)
     # tie band: point exactly on the sphere is in may but not in must
     must, may = images(np.array([0.25]), np.array([1.0]), 0.0, 0.25)
-    assert (0, (0,)) in may and (0, (0,)) not in must
+    _req((0, (0,)) in may and (0, (0,)) not in must)
     # empty
     must, may = images(np.array([0.5]), np.array([1.0]), 0.0, 0.1)
-    assert not must and not may
+    _req(not must and not may)
     # plain ball
     m, y, d = ball(np.array([[0.0, 0.0], [3.0, 4.0]]), np.array([0.0, 0.0]), 5.0)
-    assert list(y) == [True, True] and list(m) == [True, False] and abs(d[1] - 5.0) < 1e-15
+    _req(list(y) == [True, True] and list(m) == [True, False] and abs(d[1] - 5.0) < 1e-15)
     m, y, _ = ball(np.array([1.0, 2.0, 3.0]), 0.0, np.inf)
-    assert m.all() and y.all()
+    _req(m.all() and y.all())
     # dual rows / spacings: hexagonal 2-D cell a=1, gamma=60deg: spacing = sin(60deg)
     A = np.array([[1.0, 0.0], [0.5, np.sqrt(3) / 2]])
-    assert np.allclose(dual_rows(A) @ A.T, np.eye(2), atol=1e-14)
-    assert np.allclose(plane_spacings(A), [np.sqrt(3) / 2, np.sqrt(3) / 2], atol=1e-14)
+    _req(np.allclose(dual_rows(A) @ A.T, np.eye(2), atol=1e-14))
+    _req(np.allclose(plane_spacings(A), [np.sqrt(3) / 2, np.sqrt(3) / 2], atol=1e-14))
     A = np.array([[2.0, 0.0, 0.0], [0.0, 0.0, -3.0]])  # partial lattice in 3-D
-    assert np.allclose(plane_spacings(A), [2.0, 3.0]) and np.allclose(dual_rows(A), [[0.5, 0, 0], [0, 0, -1 / 3]])
+    _req(np.allclose(plane_spacings(A), [2.0, 3.0]) and np.allclose(dual_rows(A), [[0.5, 0, 0], [0, 0, -1 / 3]]))
     return True
